@@ -70,7 +70,9 @@ var srcForms = []srcForm{
 	{"m<LL>", 2, 1, func(l []gen.Source, c []gen.Expr) gen.Source {
 		return &gen.SrcCapped{Cap: c[0], From: &gen.SrcAllot{Items: []*gen.SrcAllotItem{{A: third(), From: l[0]}, {A: &gen.AllotRemaining{}, From: l[1]}}}}
 	}},
-	{"{LLL}", 3, 0, func(l []gen.Source, c []gen.Expr) gen.Source { return &gen.SrcInorder{Srcs: []gen.Source{l[0], l[1], l[2]}} }},
+	{"{LLL}", 3, 0, func(l []gen.Source, c []gen.Expr) gen.Source {
+		return &gen.SrcInorder{Srcs: []gen.Source{l[0], l[1], l[2]}}
+	}},
 	{"{L{LL}}", 3, 0, func(l []gen.Source, c []gen.Expr) gen.Source {
 		return &gen.SrcInorder{Srcs: []gen.Source{l[0], &gen.SrcInorder{Srcs: []gen.Source{l[1], l[2]}}}}
 	}},
